@@ -47,6 +47,9 @@ class C01(HistoryProperty):
 
     def gen_case(self, rng, tier):
         cfg = gen.swarm_cfg(rng, on=("dsclass",))
+        cfg["labrea_keys"] = rng.random() < 0.4  # dictionaries that carry the reserved LABREA section (logging / effects switches)
+        if cfg["labrea_keys"]:
+            cfg["alloptions"] = True
         cfg["partial_bodies"] = rng.random() < 0.4  # bodies that raise for one value of one argument (still pure functions)
         cfg["odd_returns"] = rng.random() < 0.3  # bodies returning a container that holds something uncopyable
         cfg["mutating_bodies"] = rng.random() < 0.3  # bodies that work in place on a section / list taken from the options
